@@ -242,7 +242,7 @@ func (g *gen) tok() M {
 	id := g.existing(g.d.atRaw, "a99")
 	form := "issued"
 	if g.rng.Intn(4) == 0 {
-		form = g.pick("flipIV", "flipBody", "trunc", "rekeyed", "jwtOtherIss", "jwtNone", "jwtForeign", "garbage")
+		form = g.pick("flipIV", "flipBody", "trunc", "rekeyed", "jwtOtherIss", "jwtNone", "jwtForeign", "jwtUnknownKid", "jwtNoKid", "garbage")
 	}
 	return M{"form": form, "id": id}
 }
